@@ -1,4 +1,4 @@
-import Netpoll.Buf.OwnerLemmas10
+import Netpoll.Buf.OwnerLemmas18
 /-!
 C03 – pool blocks are returned at most once; caller-owned memory never.
 
@@ -61,6 +61,38 @@ theorem C03_private_copy_never_freed (cfg : Cfg) (ops : List Op) (b : Nat) (bl :
   intro hm
   obtain ⟨_, bl', h1, h2⟩ := C03_free_only_pool cfg ops b cap hm
   rw [hb] at h1; cases h1; rw [hk] at h2; cases h2
+
+/-- **A block is returned to the pool only after every reader sharing it has released it** (the structs chained in a buffer –
+the parent's own nodes and the child nodes of every Slice reader – are what still refers to a block): in every state
+of a covered history no chained struct lies on a block that has been handed to `free`; this includes Close of a parent
+while Slice readers are outstanding and the donor clean-up of Append.
+`_partial`: `Cov` excludes (1) `WriteDirect` with `remain > 0` (the split: known finding D4, witness below),
+(2) a `MallocAck` that would reset a reference count different from 1 (never inside the contract: the structs behind
+the flush node hold pending data only), and asks for (3) fresh ids for new buffers / Slice readers, `Append` of another buffer. -/
+theorem C03_free_after_release_partial (cfg : Cfg) (ops : List Op) (hc : AllSteps cfg Cov {} ops)
+    (id i k : Nat) (b : Buf) (nd : NodeS) (bl : Block)
+    (hb : (id, b) ∈ (run cfg {} ops).bufs) (hi : i ∈ b.chain) (hn : (run cfg {} ops).mem.nodes[i]? = some nd)
+    (hk : nd.block = some k) (hbl : (run cfg {} ops).mem.blocks[k]? = some bl) : bl.frees = 0 :=
+  (run_good ops hc).chained_unfreed hb hi hn hk hbl
+
+/-- the same in terms of the executable oracle (what `npdriver own` prints as `freed-block-in-chain`) -/
+theorem C03_free_after_release_oracle_partial (cfg : Cfg) (ops : List Op) (hc : AllSteps cfg Cov {} ops) (k : Nat) (bl : Block)
+    (hbl : (run cfg {} ops).mem.blocks[k]? = some bl) (hf : bl.frees ≠ 0) : (run cfg {} ops).chainedOn k = [] :=
+  (run_good ops hc).chainedOn_nil hbl hf
+
+/-- **Every node struct goes back to `linkedPool` at most once** (under the same `Cov`). -/
+theorem C03_node_recycled_once_partial (cfg : Cfg) (ops : List Op) (hc : AllSteps cfg Cov {} ops) (i : Nat) (nd : NodeS)
+    (hn : (run cfg {} ops).mem.nodes[i]? = some nd) : nd.recycled ≤ 1 :=
+  (run_good ops hc).recycled_once hn
+
+/-- `Cov` holds along a history with a Slice reader kept across the parent's Close, an Append, a MallocAck, a non-splitting
+WriteDirect – and blocks do get freed on it -/
+def covOps : List Op :=
+  [.new 0 16, .mal 0 40, .flush 0, .slice 0 30 1, .next 1 10, .close 0, .new 2 8, .mal 2 20, .ack 2 5, .wdir 2 9 9 0, .flush 2,
+   .new 3 0, .wbin 3 5000 5000, .flush 3, .app 2 3, .flush 2, .read 2 100, .rel 2, .rel 1, .close 1, .close 2]
+
+example : AllSteps { linkBufferCap := 16 } Cov {} covOps := allStepsB_sound (fun _ _ => covB_sound) _ _ (by decide)
+example : ((run { linkBufferCap := 16 } {} covOps).mem.blocks.map (·.frees)) = [1, 1, 1, 1, 0, 0, 0] := by decide
 
 /-- the concrete history of known finding D4 (corpus/C03/d04-writedirect-split-slice.ops, `seq 315 16`) -/
 def d4cfg : Cfg := { linkBufferCap := 16 }
